@@ -80,7 +80,8 @@ pub struct Instance {
 
 fn raw_strategy() -> BoxedStrategy<Vec<RawInstance>> {
    let row = proptest::collection::vec(any::<u16>(), 4..=4);
-   let rel = proptest::collection::vec(row.clone(), 0..=10);
+   // mostly small relations; every fourth one larger (longer fixpoints, deltas that outgrow total)
+   let rel = prop_oneof![3 => proptest::collection::vec(row.clone(), 0..=10), 1 => proptest::collection::vec(row.clone(), 11..=32)];
    let inst = (
       any::<u16>(),
       any::<u16>(),
